@@ -177,7 +177,7 @@ theorem stepTickBegin_chan {s t m s'} (hs : stepTickBegin s t m = some s') :
   · simp at hs
 
 theorem stepTime_chan {s t s'} (hs : stepTime s t = some s') : s'.chan = s.chan := by
-  unfold stepTime at hs; simp only at hs; frame_crush hs
+  unfold stepTime at hs; frame_crush hs
 
 theorem stepCancel_chan {s s'} (hs : stepCancel s = some s') : s'.chan = s.chan.dropRx := by
   unfold stepCancel at hs; frame_crush hs
